@@ -17,7 +17,7 @@ import (
 // up as "context X collected a response to another survey".
 
 func c07E2E(w *W) {
-	tran := w.simFallback([]string{"inproc", "sim", "simipc", "tcp", "ipc", "tls+tcp"}[w.Choose(simrt.SShape, 6)])
+	tran := w.simFallback([]string{"inproc", "sim", "simipc", "tcp", "ipc", "tls+tcp", "ws", "wss"}[w.Choose(simrt.SShape, 8)])
 	nq := 1 + w.Choose(simrt.SShape, 3)
 	nresp := 1 + w.Choose(simrt.SShape, 3)
 	nrc := 1 + w.Choose(simrt.SShape, 2)
